@@ -1508,7 +1508,7 @@ static void runBy(const ByCase& bc, Ctx& ctx)
 VERIF_SUB(kcalc_bayes, ByCase, genBy, runBy);
 
 // ---------------------------------------------------------------- 7e. collocated option of the calculator ----
-static void runKcCc(const CcCase& cc, Ctx& ctx)
+static void runKcCcX(const CcCase& cc, Ctx& ctx, bool reuse)
 {
   const KCase& c = cc.k;
   labelCase(c, ctx);
@@ -1527,13 +1527,9 @@ static void runKcCc(const CcCase& cc, Ctx& ctx)
   if (!buildKcIn(c, w.dbin.get(), w.dbout.get(), ctx, in)) return;
   if (!(in.kappaSigma <= kKappaMax)) { ctx.inconclusive("ill-conditioned"); return; }
   double eta = etaIn(c);
-  KrigingCalcul kcal(false);
-  ctx.at("kcalc-colcok:setters");
-  if (kcal.setData(&in.Z, &in.means) || kcal.setLHS(&in.Sigma, in.hasX ? &in.X : nullptr) || kcal.setVar(&in.Sigma00))
-  {
-    ctx.fail("kcalc-colcok:setter-error:" + V, "a setter of KrigingCalcul rejects consistent inputs");
-    return;
-  }
+  // reuse: one calculator for all targets (lazy cache across setRHS / setColCokUnique); otherwise a new one per target
+  std::unique_ptr<KrigingCalcul> kown;
+  std::string P = reuse ? "kcalc-colcok-cache" : "kcalc-colcok";
   int nChecked = 0, nIll = 0, nCol = 0;
   VectorDouble Zp((size_t)nv);
   VectorInt ranks;
@@ -1562,10 +1558,21 @@ static void runKcCc(const CcCase& cc, Ctx& ctx)
     if (!makeOracle(b, wb.dbout.get(), orc)) { ctx.fail("harness:model", "oracle model"); return; }
     Sys S;
     orc.o->solve(0, pointGeom(c.ndim, x), admissibleAll(b), S);
-    ctx.at("kcalc-colcok:setRHS");
+    if (!reuse || !kown)
+    {
+      kown.reset(new KrigingCalcul(false));
+      ctx.at(P + ":setters");
+      if (kown->setData(&in.Z, &in.means) || kown->setLHS(&in.Sigma, in.hasX ? &in.X : nullptr) || kown->setVar(&in.Sigma00))
+      {
+        ctx.fail(P + ":setter-error:" + V, "a setter of KrigingCalcul rejects consistent inputs");
+        return;
+      }
+    }
+    KrigingCalcul& kcal = *kown;
+    ctx.at(P + ":setRHS");
     if (kcal.setRHS(&in.Sigma0[(size_t)k], in.hasX ? &in.X0[(size_t)k] : nullptr) || kcal.setColCokUnique(any ? &Zp : nullptr, any ? &ranks : nullptr))
     {
-      ctx.fail("kcalc-colcok:setter-error:" + V, "setRHS / setColCokUnique reject consistent inputs");
+      ctx.fail(P + ":setter-error:" + V, "setRHS / setColCokUnique reject consistent inputs");
       return;
     }
     if (!S.solved || !(S.kappa <= kKappaMax)) { nIll++; continue; }
@@ -1577,10 +1584,10 @@ static void runKcCc(const CcCase& cc, Ctx& ctx)
     for (int op : ops)
     {
       if (op == 2 && !wantVarz) continue;
-      ctx.at(std::string("kcalc-colcok") + (op == 0 ? ":getEstimation" : (op == 1 ? ":getStdv" : ":getVarianceZstar")));
+      ctx.at(P + (op == 0 ? ":getEstimation" : (op == 1 ? ":getStdv" : ":getVarianceZstar")));
       VectorDouble got = (op == 0) ? kcal.getEstimation() : (op == 1 ? kcal.getStdv() : kcal.getVarianceZstar());
       const char* what = (op == 0) ? "estimation" : (op == 1 ? "stdv" : "varZ*");
-      std::string key = std::string("kcalc-colcok:") + (op == 0 ? "estim" : (op == 1 ? "stdev" : "varz")) + ":" + cls;
+      std::string key = P + ":" + (op == 0 ? "estim" : (op == 1 ? "stdev" : "varz")) + ":" + cls;
       if ((int)got.size() != nv) { ctx.fail(key + ":size", fmt("%s: %d values returned for %d variables (target %d, %d collocated values)", what, (int)got.size(), nv, k, (int)ranks.size())); return; }
       for (int tv = 0; tv < nv; tv++)
       {
@@ -1594,7 +1601,10 @@ static void runKcCc(const CcCase& cc, Ctx& ctx)
   if (nChecked == 0 && nIll > 0) ctx.inconclusive("ill-conditioned");
   ctx.nontrivial(nCol > 0);
 }
+static void runKcCc(const CcCase& c, Ctx& ctx) { runKcCcX(c, ctx, false); }
+static void runKcCcCache(const CcCase& c, Ctx& ctx) { runKcCcX(c, ctx, true); }
 VERIF_SUB(kcalc_colcok, CcCase, genCc, runKcCc);
+VERIF_SUB(kcalc_colcok_cache, CcCase, genCc, runKcCcCache);
 
 // ---------------------------------------------------------------- 7f. cross-validation option of the calculator ----
 struct XvCase
